@@ -71,6 +71,42 @@ let fields_of_stmt (st : stmt) : string list =
   @ List.map (fun c -> "G=" ^ hex_of_bytes c) st.s_group @ win
   @ ["H=" ^ hex_of_bytes (cond_text st.s_having)] @ opts @ keys @ lim
 
+(* ---- MATCH_RECOGNIZE as written (M lines): the reference reading of the clause, Model/MatchWithin.v ---- *)
+let rec int_of_z = function Z0 -> 0 | Zpos p -> int_of_pos p | Zneg p -> - (int_of_pos p)
+let hex_list (l : n list list) : string =
+  if l = [] then "-" else String.concat ";" (List.map (fun b -> if b = [] then "-" else hex_of_bytes b) l)
+let fields_of_mr (sp : mrspec) : string list =
+  [ "MK=2"; "MP=" ^ hex_list sp.mr_part; "MO=" ^ hex_list sp.mr_order; "MR=" ^ b01 sp.mr_all;
+    Printf.sprintf "MS=%d,%s" (int_of_n sp.mr_skip) (if sp.mr_skip_sym = [] then "-" else hex_of_bytes sp.mr_skip_sym);
+    "MW=" ^ string_of_int (int_of_z sp.mr_within); "MM=" ^ hex_list sp.mr_measures; "MD=" ^ hex_list sp.mr_defines;
+    "MU=" ^ (if sp.mr_subsets = [] then "-" else String.concat ";" (List.map (fun (nm, syms) ->
+        hex_of_bytes nm ^ ":" ^ String.concat "+" (List.map hex_of_bytes syms)) sp.mr_subsets));
+    "MT=" ^ (match sp.mr_pattern with Some l -> hex_list l | None -> "?") ]
+let mr_clause_of (d : string) : string =
+  if String.length d > 8 then (match d.[7] with
+      | 'K' -> "execution_mode" | 'P' -> "partition_by" | 'O' -> "order_by" | 'R' -> "rows_per_match" | 'S' -> "after_match_skip"
+      | 'W' -> "within" | 'M' -> "measures" | 'D' -> "define" | 'U' -> "subset" | 'T' -> "pattern" | _ -> "structure") else "structure"
+(* label of a recorded finding (known_findings.d/C11.jsonl): the WITHIN count is a decimal that is not a binary
+   fraction and the configured bound is exactly one nanosecond below the written one.  Only a label. *)
+let within_label (toks : token list) (fm : string list) (fo : string list) : string =
+  let mw l = List.find_map (fun f -> if String.length f > 3 && String.sub f 0 3 = "MW=" then int_of_string_opt (String.sub f 3 (String.length f - 3)) else None) l in
+  let rec count = function
+    | w :: c :: r when int_of_n w.ttype = 1 && String.uppercase_ascii (str_of_bytes w.tval) = "WITHIN" && int_of_n c.ttype = 2 ->
+        (match count r with Some d -> Some d | None -> parse_dec c.tval)
+    | _ :: r -> count r
+    | [] -> None in
+  match mw fm, mw fo, count toks with
+  | Some m, Some o, Some d when o = m - 1 && not (dec_dyadic d) -> " [within_decimal_count_float_product]"
+  | _ -> ""
+(* label of a recorded finding: the PATTERN writes an exclusion {- ... -} right after a pattern variable that has no
+   quantifier (the parser reads "{" as the start of a quantifier, fails, and the failure is swallowed).  Only a label. *)
+let exclusion_label (toks : token list) : string =
+  let identlike t = (match t.tval with c :: _ -> let c = int_of_n c in (c >= 65 && c <= 90) || (c >= 97 && c <= 122) || c = 95 | [] -> false) in
+  let rec go = function
+    | a :: b :: c :: r -> if identlike a && int_of_n b.ttype = 60 && int_of_n c.ttype = 9 then true else go (b :: c :: r)
+    | _ -> false in
+  if go toks then " [mr_exclusion_after_unquantified_variable]" else ""
+
 let split2 (s : string) (c : char) : string * string =
   match String.index_opt s c with
   | Some i -> (String.sub s 0 i, String.sub s (i + 1) (String.length s - i - 1))
@@ -210,6 +246,24 @@ let handle (toks : string list) : string =
               else if o1 <> "ok" then "ok"
               else if d1 <> d2 then "chk literal_is_data differs=" ^ digest_diff d1 d2 ^ finding_labels names st
               else "ok nt")
+  | "M" :: sql :: "#" :: rest ->
+      (* MATCH_RECOGNIZE as written: generator's clause = reference reading (model lexer + mr_ref) = types.Config *)
+      (match split_hash rest with
+       | [expd; obs] ->
+           let toks = tokens (bytes_of_hex sql) in
+           (match mr_ref toks with
+            | None -> "diff mr_reference_rejects_generated_statement"
+            | Some None -> "diff mr_reference_finds_no_match_recognize"
+            | Some (Some sp) ->
+                let fm = fields_of_mr sp in
+                if fm <> expd then "diff mr_reference_vs_generator " ^ first_diff fm expd
+                else (match obs with
+                    | "ERR" :: msg :: _ -> "chk parse_accepts_documented_grammar error=" ^ unhex msg ^ exclusion_label toks
+                    | _ ->
+                        if obs = fm then "ok nt"
+                        else let d = first_diff fm obs in
+                          "chk faithful_mr_" ^ mr_clause_of d ^ " " ^ d ^ within_label toks fm obs ^ exclusion_label toks))
+       | _ -> "bad line")
   | ["R"; s1; s2; same; nres; detail] ->
       let p1 = parse_ref (tokens (bytes_of_hex s1)) in
       if p1 = None || p1 <> parse_ref (tokens (bytes_of_hex s2)) then "diff not_layout_variants"
